@@ -94,6 +94,7 @@ var biForceFull bool
 var (
 	biBootRDB     []byte
 	biBootCfgHook func(*RedisOutputConfig)
+	biBootCfgHookAll func(*RedisOutputConfig)
 )
 
 // biBoot runs the start sequence against the target. It returns the output and the
@@ -115,6 +116,9 @@ func biBoot(c biCfg, rc config.RedisConfig, inputName, runID string, s0 int64, p
 func biBootWith(c biCfg, rc config.RedisConfig, inputName, runID string, s0 int64, presetName bool, nodeOf func(key string) *redisd.Server) (res biBootResult) {
 	bootRDB, cfgHook := biBootRDB, biBootCfgHook
 	biBootRDB, biBootCfgHook = nil, nil
+	if cfgHook == nil {
+		cfgHook = biBootCfgHookAll // stays installed for every start sequence of an execution
+	}
 	srv := nodeOf(config.CheckpointKeyHashKey)
 	ids := []string{runID, biRunID2}
 	sy := &syncer{cfg: SyncerConfig{Output: rc}, logger: log.WithLogger("[verif] ")}
